@@ -209,3 +209,27 @@ func Verif_C15_Expose(n int) {
 	verifsym.Observe("expose", expose)
 	verifsym.Reach("end")
 }
+
+// Verif_C15_ExposeVendor: references whose package path and whose type
+// argument both come from vendored paths (symbolic one-byte pieces around the
+// literal "/vendor/"): PkgImportPathAndExpose returns the name ParseRef finds
+// (up to the argument list) and ParseRef's package path after the vendor
+// trimming of ImportGoPath - in particular a "/vendor/" inside the ARGUMENT list
+// must not move the boundary.
+func Verif_C15_ExposeVendor(withArg int) {
+	lower := func() string { return vLower(1) }
+	s := lower() + "/vendor/" + lower() + "/" + lower() + ".N"
+	if withArg == 1 {
+		s += "[" + lower() + "/vendor/" + lower() + ".X]"
+	}
+	path, expose := PkgImportPathAndExpose(s)
+	r, err := gengotypes.ParseRef(s)
+	verifsym.Assert(err == nil, "ParseRef rejects the reference")
+	if err == nil {
+		verifsym.Assert(path == ImportGoPath(r.Pkg().Path()), "PkgImportPathAndExpose and ParseRef disagree on the package path (modulo vendor trimming)")
+		verifsym.Assert(expose == "N", "PkgImportPathAndExpose does not return the name in front of the argument list")
+	}
+	verifsym.Observe("path", path)
+	verifsym.Observe("expose", expose)
+	verifsym.Reach("end")
+}
